@@ -317,9 +317,14 @@ pub enum Wire {
     CallMid(u8, RpcReplyPort<Vec<u8>>, i64),
     #[rpc]
     CallLast(String, RpcReplyPort<u16>),
+    #[rpc]
+    CallNamed0 { reply: RpcReplyPort<u8> },
+    #[rpc]
+    CallNamed { x: u8, reply: RpcReplyPort<u8> },
 }
 
-const TAGS: &[&str] = &["Unit", "Tuple", "Named", "Wide", "Call0", "CallFirst", "CallMid", "CallLast", "Unknown", "", "unit"];
+const TAGS: &[&str] = &["Unit", "Tuple", "Named", "Wide", "Call0", "CallFirst", "CallMid", "CallLast", "CallNamed0", "CallNamed", "Unknown", "", "unit"];
+const VALID_TAGS: usize = 10;
 
 fn decoders(ctx: &EnumCtx, len: usize) -> EnumResult {
     let mut res = EnumResult::default();
@@ -381,8 +386,43 @@ fn decoders(ctx: &EnumCtx, len: usize) -> EnumResult {
                     Ok(Ok(m)) => {
                         *res.outcomes.entry(format!("ok:{tag}")).or_insert(0) += 1;
                         let is_call_variant = tag.starts_with("Call");
-                        if !TAGS[..8].contains(tag) || is_call_variant != call {
+                        if !TAGS[..VALID_TAGS].contains(tag) || is_call_variant != call {
                             res.violations.push((format!("decoded {m:?} from variant {tag:?} (call={call})"), json!({"args": args})));
+                        }
+                        // an accepted payload is framed exactly: as many [u64 length][bytes] fields as the variant
+                        // has data arguments, and nothing after the last of them (what a fixed-size conversion does
+                        // with a field that is longer than the type is its own, lenient, business)
+                        let fields = match *tag {
+                            "Unit" | "Call0" | "CallNamed0" => 0usize,
+                            "CallFirst" | "CallLast" | "CallNamed" => 1,
+                            "Tuple" | "Named" | "CallMid" => 2,
+                            "Wide" => 4,
+                            _ => usize::MAX,
+                        };
+                        if fields != usize::MAX {
+                            let mut pos = 0usize;
+                            let mut ok = true;
+                            for _ in 0..fields {
+                                if pos + 8 > args.len() {
+                                    ok = false;
+                                    break;
+                                }
+                                let l = u64::from_be_bytes(args[pos..pos + 8].try_into().unwrap());
+                                pos += 8;
+                                match usize::try_from(l).ok().and_then(|l| pos.checked_add(l)) {
+                                    Some(e) if e <= args.len() => pos = e,
+                                    _ => {
+                                        ok = false;
+                                        break;
+                                    }
+                                }
+                            }
+                            if (!ok || pos != args.len()) && res.violations.len() < 5 {
+                                res.violations.push((
+                                    format!("variant {tag:?} (call={call}, {fields} data argument(s)) accepted {} argument bytes as {m:?} although its framing ends at byte {pos}: short or trailing bytes were accepted", args.len()),
+                                    json!({"args": args}),
+                                ));
+                            }
                         }
                     }
                     Ok(Err(_)) => {
